@@ -662,6 +662,8 @@ fn main() {
         }
     }
 
+    seqs::apply_probe(&mut w);
+
     // ---------------------------------------------------------------- Coq: Layouts.v
     let mut unrec = w.unrecognised.clone();
     let order = topo(&w);
